@@ -72,7 +72,7 @@ theorem decStreamWindow_err (dec acc : Nat) (s : Streams) (id : Nat) (e : PErr)
   (repeat' split at h) <;> simp at h <;> exact ⟨_, _, _, h.symm⟩
 
 /-- the SETTINGS_INITIAL_WINDOW_SIZE part of `Send::apply_remote_settings` (a copy of the model's code) -/
-def sarsWindow (s : Streams) (val : Nat) : Streams × Option PErr :=
+def sarsWindowE (s : Streams) (val : Nat) : Streams × Option PErr :=
   let oldVal := s.actions.send.initWindowSz
   let s := s.modSend fun sd => { sd with initWindowSz := val }
   if val < oldVal then
@@ -88,17 +88,17 @@ def sarsWindow (s : Streams) (val : Nat) : Streams × Option PErr :=
       | (s, .ok _) => (s, none)
   else (s, none)
 
-def sarsConnect (s : Streams) (enableConnect : Option Nat) : Streams :=
+def sarsConnectE (s : Streams) (enableConnect : Option Nat) : Streams :=
   match enableConnect with
   | some v => s.modSend fun sd => { sd with isExtendedConnectProtocolEnabled := v != 0 }
   | none => s
 
-theorem sendApplyRemoteSettings_eq (s : Streams) (a b c : Option Nat) :
+theorem sendApplyRemoteSettings_eqE (s : Streams) (a b c : Option Nat) :
     s.sendApplyRemoteSettings a b c =
       (let (s, res) : Streams × Option PErr :=
         match a with
-        | none => (sarsConnect s c, none)
-        | some val => sarsWindow (sarsConnect s c) val
+        | none => (sarsConnectE s c, none)
+        | some val => sarsWindowE (sarsConnectE s c) val
       match res with
       | some e => (s, .error e)
       | none =>
@@ -108,8 +108,8 @@ theorem sendApplyRemoteSettings_eq (s : Streams) (a b c : Option Nat) :
         (s, .ok ())) := by
   cases a <;> rfl
 
-theorem sarsWindow_err (s : Streams) (val : Nat) (e : PErr) (h : (sarsWindow s val).2 = some e) : IsGoAwayErr e := by
-  unfold sarsWindow at h
+theorem sarsWindowE_err (s : Streams) (val : Nat) (e : PErr) (h : (sarsWindowE s val).2 = some e) : IsGoAwayErr e := by
+  unfold sarsWindowE at h
   dsimp only at h
   split at h
   · split at h
@@ -129,19 +129,19 @@ theorem sarsWindow_err (s : Streams) (val : Nat) (e : PErr) (h : (sarsWindow s v
 
 theorem sendApplyRemoteSettings_err (s : Streams) (a b c : Option Nat) (e : PErr)
     (h : (s.sendApplyRemoteSettings a b c).2 = .error e) : IsGoAwayErr e := by
-  rw [sendApplyRemoteSettings_eq] at h
+  rw [sendApplyRemoteSettings_eqE] at h
   cases a with
   | none => simp at h
   | some val =>
     dsimp only at h
-    rcases hw : sarsWindow (sarsConnect s c) val with ⟨s1, r⟩
+    rcases hw : sarsWindowE (sarsConnectE s c) val with ⟨s1, r⟩
     rw [hw] at h
     cases r with
     | none => simp at h
     | some e' =>
       simp at h
       subst h
-      exact sarsWindow_err _ val e' (by rw [hw])
+      exact sarsWindowE_err _ val e' (by rw [hw])
 
 theorem ackAndApply_err (c : Conn) (v : List (Nat × Nat)) (e : PErr) (h : (ackAndApply c v).2 = .err e) :
     IsGoAwayErr e := by
